@@ -215,7 +215,9 @@ func (w *C12) Run(x *simkit.Ctx) {
 		// BlockState, right before Commit (see DESIGN.md, C12 notes); replaying one is allowed.
 		switch r.Pick(20, 30, 12, 10, 8, 0, 3) {
 		case 0:
-			return &simkit.Step{Op: "put", A: r.Intn(nA), V: int64(r.Intn(1000)), B: r.Intn(50)}
+			// C = 1: the write goes the way of the executor's failure path (tentative effects, Reset to the
+			// state the account was loaded with, then the final charge)
+			return &simkit.Step{Op: "put", A: r.Intn(nA), V: int64(r.Intn(1000)), B: r.Intn(50), C: r.Pick(3, 1)}
 		case 1:
 			return &simkit.Step{Op: "session", A: r.Intn(nC), B: r.Pick(3, 1), X: genSession(r)}
 		case 2:
@@ -242,6 +244,12 @@ func (w *C12) Run(x *simkit.Ctx) {
 			if err != nil {
 				x.Fail("C12", "read-error", "put", err.Error(), idx)
 				break
+			}
+			if st.C == 1 {
+				as.AddBalance(big.NewInt(7))
+				as.SetNonce(as.Nonce() + 3)
+				as.Reset()
+				x.Probe("write-after-reset")
 			}
 			// set absolute values through the delta API the executor uses
 			cur := as.Balance().Int64()
